@@ -106,6 +106,23 @@ THEOREMS = {
     "try_emplace_alias": _STEP + [_P + "ipv_push_alias_eq", _P + "alias_spec", _P + "tryPush_full"],
     "unchecked_push_alias": _STEP + [_P + "ipv_push_alias_eq", _P + "alias_spec"],
     "unchecked_emplace_alias": _STEP + [_P + "ipv_push_alias_eq", _P + "alias_spec"],
+    "push_mv": _STEP + [_P + "rvalue_argument_moved_iff_constructed", _P + "rvalue_members_generalise", _P + "rvalue_members_present"],
+    "emplace_back_mv": _STEP + [_P + "rvalue_argument_moved_iff_constructed", _P + "rvalue_members_generalise",
+                                _P + "rvalue_members_present"],
+    "insert_mv": _STEP + [_P + "rvalue_argument_moved_iff_constructed", _P + "rvalue_members_generalise",
+                          _P + "rvalue_members_present", _P + "rotate_eq"],
+    "emplace_mv": _STEP + [_P + "rvalue_argument_moved_iff_constructed", _P + "rvalue_members_generalise",
+                           _P + "rvalue_members_present", _P + "rotate_eq"],
+    "try_push_mv": _STEP + [_P + "tryPush_full_keeps_argument", _P + "tryPush_room_consumes_argument",
+                            _P + "rvalue_argument_moved_iff_constructed", _P + "rvalue_members_generalise",
+                            _P + "rvalue_members_present", _P + "tryPush_full"],
+    "try_emplace_mv": _STEP + [_P + "tryPush_full_keeps_argument", _P + "tryPush_room_consumes_argument",
+                               _P + "rvalue_argument_moved_iff_constructed", _P + "rvalue_members_generalise",
+                               _P + "rvalue_members_present", _P + "tryPush_full"],
+    "unchecked_push_mv": _STEP + [_P + "rvalue_argument_moved_iff_constructed", _P + "rvalue_members_generalise",
+                                  _P + "rvalue_members_present"],
+    "unchecked_emplace_mv": _STEP + [_P + "rvalue_argument_moved_iff_constructed", _P + "rvalue_members_generalise",
+                                     _P + "rvalue_members_present"],
     "dump": [_P + "observers_refine", _P + "observers_refine_ipv_stk", _P + "observers_zero_capacity"],
     "try_push": _STEP + [_P + "tryPush_full"], "try_push_rv": _STEP + [_P + "tryPush_full"],
     "try_emplace": _STEP + [_P + "tryPush_full"], "unchecked_push": _STEP, "unchecked_push_rv": _STEP,
@@ -165,7 +182,7 @@ IPV_MEMBERS = {"try_push", "try_push_rv", "try_emplace", "unchecked_push", "unch
                "clear", "copy_ctor", "move_ctor", "dump"}
 # mirror of Tetl.C01.Spec.stateFree: the precondition does not mention the current contents
 STATE_FREE = {"resize", "resize_val", "assign_fill", "assign_range", "clear", "ctor_n", "ctor_n_val", "ctor_range",
-              "erase_val", "erase_if", "try_push", "try_push_rv", "try_emplace", "dump"}
+              "erase_val", "erase_if", "try_push", "try_push_rv", "try_emplace", "try_push_mv", "try_emplace_mv", "dump"}
 BINARY_OPS = {"copy_ctor", "move_ctor", "copy_assign", "move_assign", "swap", "swap_free", "cmp"}
 MEMBER_ARGS = "pos=0 n=0 x=0 xs=[] other=1 f=0 l=0 m=1 r=0"
 
@@ -189,6 +206,10 @@ def unary_ops_exhaustive(ty, cap, d):
                 ops += ["push x=%d" % x, "push_rv x=%d" % x, "emplace_back x=%d" % x]
             for p in range(n + 1):
                 ops += ["insert pos=%d x=5" % p, "insert_rv pos=%d x=6" % p, "emplace pos=%d x=7" % p]
+            # the argument is std::move(t) of an object the caller looks at afterwards (` arg=`)
+            ops += ["push_mv x=1", "emplace_back_mv x=2"]
+            for p in range(n + 1):
+                ops += ["insert_mv pos=%d x=6" % p, "emplace_mv pos=%d x=7" % p]
         if n > 0:
             ops.append("pop")
         for p in range(n + 1):
@@ -218,6 +239,7 @@ def unary_ops_exhaustive(ty, cap, d):
                 ops += ["push x=%d" % x, "push_rv x=%d" % x, "emplace_back x=%d" % x]
             if n > 0:
                 ops += ["push_top", "emplace_top"]
+            ops += ["push_mv x=1", "emplace_back_mv x=2"]
         if n > 0:
             ops.append("pop")
     elif ty == "ipv":
@@ -225,6 +247,11 @@ def unary_ops_exhaustive(ty, cap, d):
             ops += ["try_push x=%d" % x, "try_push_rv x=%d" % x, "try_emplace x=%d" % x]
             if room > 0:
                 ops += ["unchecked_push x=%d" % x, "unchecked_push_rv x=%d" % x, "unchecked_emplace x=%d" % x]
+        # the argument is std::move(t) of an object the caller looks at afterwards: on a full vector (room == 0; always at
+        # capacity 0) try_* must not touch it
+        ops += ["try_push_mv x=1", "try_emplace_mv x=2"]
+        if room > 0:
+            ops += ["unchecked_push_mv x=1", "unchecked_emplace_mv x=2"]
         for i in range(n):
             ops += ["try_push_alias i=%d" % i, "try_emplace_alias i=%d" % i]
             if room > 0:
@@ -260,7 +287,7 @@ def alias_ops_exhaustive(cap, d):
 
 # the key/payload kind differs from int only in operator< / operator== (same storage): its single-object box is the
 # members that compare elements, the aliasing members and a few plain ones
-KP_UNARY = ("erase_val", "push", "insert", "push_alias", "push_top", "insert_alias", "insert_fill_alias", "resize_val_alias")
+KP_UNARY = ("erase_val", "push", "insert", "push_mv", "insert_mv", "push_alias", "push_top", "insert_alias", "insert_fill_alias", "resize_val_alias")
 
 
 def build(ty, d, obj):
@@ -331,10 +358,12 @@ def boundary_histories(add):
                  "resize_val n=%d x=3" % (cap - 2), "erase_if m=2 r=0", "assign_fill n=%d x=1" % cap, "swap obj=0 other=1",
                  "clear obj=1", "insert_range obj=1 pos=0 xs=%s" % fmt_list(xs + [5]), "pop obj=1",
                  "insert_alias obj=1 pos=0 i=%d" % (cap - 2), "pop obj=1", "insert_alias obj=1 pos=3 i=5", "pop obj=1",
-                 "push_top obj=1", "resize_val_alias obj=1 n=%d i=1" % (cap - 3), "insert_fill_alias obj=1 pos=1 n=3 i=2"],
+                 "push_top obj=1", "resize_val_alias obj=1 n=%d i=1" % (cap - 3), "insert_fill_alias obj=1 pos=1 n=3 i=2",
+                 "pop obj=1", "insert_mv obj=1 pos=2 x=9", "pop obj=1", "push_mv obj=1 x=9"],
                 "sv/boundary")
             add([new_line("ipv", cap, kind)] + ["unchecked_push x=%d" % (i % 7) for i in range(cap - 1)]
-                + ["try_push x=9", "try_push x=4", "try_emplace x=4", "try_push_rv x=4", "copy_ctor obj=1 other=0",
+                + ["try_push_mv x=9", "try_push x=4", "try_emplace x=4", "try_push_rv x=4", "try_push_mv x=5", "try_emplace_mv x=6",
+                   "copy_ctor obj=1 other=0",
                    "pop obj=0", "try_push obj=1 x=2", "try_emplace obj=0 x=3", "move_ctor obj=2 other=0", "clear obj=0",
                    "try_push obj=0 x=1", "try_push obj=2 x=1", "try_push_alias obj=1 i=3", "pop obj=1",
                    "unchecked_push_alias obj=1 i=2", "try_emplace_alias obj=1 i=0"], "ipv/boundary")
@@ -443,16 +472,18 @@ class Mirror:
         return list(d)
 
 
+MV_CANDS = {"sv": ["push_mv", "emplace_back_mv", "insert_mv", "emplace_mv"], "stk": ["push_mv", "emplace_back_mv"],
+            "ipv": ["try_push_mv", "try_push_mv", "try_emplace_mv", "unchecked_push_mv", "unchecked_emplace_mv"]}
 ALIAS_CANDS = ["push_alias", "emplace_back_alias", "push_top", "emplace_top", "insert_alias", "insert_alias", "emplace_alias",
                "insert_fill_alias", "insert_fill_alias", "resize_val_alias"]
 UNARY_CANDS = {
     "sv": ["push", "push_rv", "emplace_back", "insert", "insert_rv", "emplace", "insert_fill", "insert_range", "move_insert",
            "pop", "erase", "erase_range", "resize", "resize_val", "assign_fill", "assign_range", "clear", "erase_val",
-           "erase_if", "ctor_n", "ctor_n_val", "ctor_range", "dump"] + ALIAS_CANDS,
-    "stk": ["push", "push", "push_rv", "emplace_back", "pop", "pop", "dump", "push_top", "emplace_top"],
+           "erase_if", "ctor_n", "ctor_n_val", "ctor_range", "dump"] + ALIAS_CANDS + MV_CANDS["sv"],
+    "stk": ["push", "push", "push_rv", "emplace_back", "pop", "pop", "dump", "push_top", "emplace_top"] + MV_CANDS["stk"],
     "ipv": ["try_push", "try_push", "try_push_rv", "try_emplace", "unchecked_push", "unchecked_push_rv",
             "unchecked_emplace", "pop", "pop", "clear", "try_push_alias", "try_emplace_alias", "unchecked_push_alias",
-            "unchecked_emplace_alias"],
+            "unchecked_emplace_alias"] + MV_CANDS["ipv"],
 }
 
 
@@ -522,14 +553,14 @@ def rand_history(rnd, ty, cap, kind, length, big, interleave=False):
             cands = ["push", "push_rv", "emplace_back", "insert", "insert_rv", "emplace", "insert_fill", "insert_range",
                      "move_insert", "pop", "erase", "erase_range", "resize", "resize_val", "assign_fill", "assign_range",
                      "clear", "erase_val", "erase_if", "ctor_n", "ctor_n_val", "ctor_range", "copy_ctor", "move_ctor",
-                     "copy_assign", "move_assign", "swap", "swap_free", "cmp", "cmp", "dump"] + ALIAS_CANDS
+                     "copy_assign", "move_assign", "swap", "swap_free", "cmp", "cmp", "dump"] + ALIAS_CANDS + MV_CANDS["sv"]
         elif ty == "stk":
             cands = ["push", "push", "push_rv", "emplace_back", "pop", "copy_ctor", "move_ctor", "copy_assign",
-                     "move_assign", "swap", "swap_free", "cmp", "push_top", "emplace_top"]
+                     "move_assign", "swap", "swap_free", "cmp", "push_top", "emplace_top"] + MV_CANDS["stk"]
         else:
             cands = ["try_push", "try_push", "try_push_rv", "try_emplace", "unchecked_push", "unchecked_push_rv",
                      "unchecked_emplace", "pop", "clear", "copy_ctor", "move_ctor", "try_push_alias", "try_emplace_alias",
-                     "unchecked_push_alias", "unchecked_emplace_alias"]
+                     "unchecked_push_alias", "unchecked_emplace_alias"] + MV_CANDS["ipv"]
         if interleave:
             cands = UNARY_CANDS[ty]
         op = rnd.choice(cands)
@@ -537,7 +568,7 @@ def rand_history(rnd, ty, cap, kind, length, big, interleave=False):
         o = "obj=%d" % k
         if m.unspec[k] and op not in BINARY_OPS and op not in STATE_FREE:
             continue        # the standard does not say what a moved-from object holds: no precondition can be met
-        if op in ("push", "push_rv", "emplace_back"):
+        if op in ("push", "push_rv", "emplace_back", "push_mv", "emplace_back_mv"):
             if room <= 0:
                 continue
             x = val()
@@ -576,12 +607,12 @@ def rand_history(rnd, ty, cap, kind, length, big, interleave=False):
             i = rnd.randrange(n)
             emit("resize_val_alias %s n=%d i=%d" % (o, c, i), op)
             m.o[k] = d[:c] + [d[i]] * (c - n)
-        elif op in ("try_push", "try_push_rv", "try_emplace"):
+        elif op in ("try_push", "try_push_rv", "try_emplace", "try_push_mv", "try_emplace_mv"):
             x = val()
             emit("%s %s x=%d" % (op, o, x), op + ("/full" if room <= 0 else ""))
             if room > 0:
                 d.append(x)
-        elif op in ("unchecked_push", "unchecked_push_rv", "unchecked_emplace"):
+        elif op in ("unchecked_push", "unchecked_push_rv", "unchecked_emplace", "unchecked_push_mv", "unchecked_emplace_mv"):
             if room <= 0:
                 continue
             x = val()
@@ -605,7 +636,7 @@ def rand_history(rnd, ty, cap, kind, length, big, interleave=False):
                 continue
             emit("pop %s" % o, op)
             d.pop()
-        elif op in ("insert", "insert_rv", "emplace"):
+        elif op in ("insert", "insert_rv", "emplace", "insert_mv", "emplace_mv"):
             if room <= 0:
                 continue
             p = rnd.choice([0, n, rnd.randint(0, n)])
